@@ -17,6 +17,7 @@ fn main() {
         Some("verif") => verif::main(&args[2..]),
         Some("access") => access::main(&args[2..]),
         Some("claims") => claims::main(&args[2..]),
+        Some("power") => power::main(&args[2..]),
         _ => {
             eprintln!("usage: drive <subsystem> ...");
             std::process::exit(2);
